@@ -2,6 +2,8 @@ CONSTANTS
   CacheKeyedByNameOnly = FALSE
   ContentCacheByFile = TRUE
   ResultsAliased = FALSE
+  GetMemberRewinds = FALSE
+  LazyScanDiesOnFault = FALSE
   EmitH = FALSE
 SPECIFICATION Spec
 INVARIANT CacheCoherent
